@@ -22,8 +22,14 @@ def known_class(p, T):
     return None
 
 
+class ProbeUnavailable(Exception):
+    """the probe did not answer (loaded machine / killed): never a verdict"""
+
+
 def build(probe, files):
-    r = probe.call({"cmd": "asm", "files": files})
+    r = probe.call({"cmd": "asm", "files": files}, timeout=300.0)
+    if "hang" in r or "crash" in r:
+        raise ProbeUnavailable(str(r))
     if "segments" not in r:
         return None, r.get("errors") or r.get("parse_errors") or r
     errs = (r.get("parse_errors") or []) + (r.get("errors") or [])
@@ -165,7 +171,16 @@ def run(chk):
     if os.path.isdir(CORPUS):
         for fn in sorted(os.listdir(CORPUS)):
             if fn.endswith(".json"):
-                run_corpus_case(chk, fn, json.load(open(os.path.join(CORPUS, fn))), mos, probe, workdir, stats)
+                case = json.load(open(os.path.join(CORPUS, fn)))
+                for attempt in (0, 1, 2):
+                    try:
+                        run_corpus_case(chk, fn, case, mos, probe, workdir, stats)
+                        break
+                    except (lsp_nav.ServerSlow, ProbeUnavailable):
+                        stats["slow_skipped"] = stats.get("slow_skipped", 0) + 1
+                    except lsp_nav.ServerDied as e:
+                        chk.oracle_failure(None, "server died on corpus %s: %s" % (fn, e), {"corpus": fn})
+                        break
     seen = set()
     i = 0
     while stats["programs"] < n and i < 4 * n:
@@ -234,6 +249,9 @@ def run(chk):
                     if others and sub.random() < 0.7:
                         stats["other_scope"] += 1
                         rename_trial(chk, p, sess, probe, o, T, sub.choice(others), base_build, stats, "name of another scope", tie)
+        except (lsp_nav.ServerSlow, ProbeUnavailable):
+            stats["slow_skipped"] = stats.get("slow_skipped", 0) + 1    # a loaded machine is not a verdict
+            continue
         except lsp_nav.ServerDied as e:
             chk.oracle_failure(None, "server died: %s" % e, {"files": files})
             continue
